@@ -74,6 +74,28 @@ Proof. exact ex_add_hyp. Qed.
 Print Assumptions add_handler_hypotheses_satisfiable.
 Print Assumptions add_handler_is_stable_insert.
 
+(* remove_handler(method): whatever the registry was, afterwards no registration of that procedure is left in any
+   event (also when the same procedure was registered several times, adjacent in one list), and no event is left
+   with an empty list *)
+Theorem remove_by_method_leaves_no_registration :
+  forall pid s e l, In (e, l) (reg (remove_by_method pid s)) ->
+    Forall (fun h => h_pid h <> pid) l /\ l <> [].
+Proof. exact remove_by_method_complete. Qed.
+Print Assumptions remove_by_method_leaves_no_registration.
+
+Theorem remove_by_method_snapshot_clean :
+  forall pid s e l, reg_get e (reg (remove_by_method pid s)) = Some l ->
+    Forall (fun h => h_pid h <> pid) l /\ l <> [].
+Proof. exact remove_by_method_snapshot. Qed.
+Print Assumptions remove_by_method_snapshot_clean.
+
+Example remove_by_method_on_repeated_registrations :
+  map h_key (snapshot 1 rm_state) = [1; 2; 3; 4] /\
+  map h_key (snapshot 1 (remove_by_method 7 rm_state)) = [4] /\
+  reg_get 2 (reg (remove_by_method 7 rm_state)) = None.
+Proof. exact ex_remove_method. Qed.
+Print Assumptions remove_by_method_on_repeated_registrations.
+
 (* any event type: during a dispatch only handlers of that event run (serial: no nesting, no interleaving) *)
 Theorem dispatch_is_one_segment :
   forall fast sc p s, exists o, out (process fast sc p s) = out s ++ o /\ Forall (is_invoke (q_ev p)) o.
